@@ -154,6 +154,13 @@ def build_traces(path, tier, seed):
                 xi_[int(rng.integers(n))] = np.iinfo(dt_).min
             x = xi_.astype(dt_)
             aref = float(np.max(np.abs(x)) * rng.uniform(0.2, 1.5))
+        if rng.integers(3):
+            # history: the same record (the same array, or a copy of it) was analysed before with another cut-off, reference
+            # amplitude and exponent -- every call is a function of its own arguments
+            for _ in range(int(rng.integers(1, 3))):
+                im.calc_n_cyc_array_w_power_law(x if rng.integers(2) else np.array(x), aref * float(rng.uniform(0.5, 1.5)), float(rng.choice([1.0, 0.5, 0.3])),
+                                                cut_off=float(rng.choice([0.1, 0.05, 0.0, 0.02, 0.1])))
+            im.calc_cyc_amp_array_w_power_law(x, float(rng.uniform(0.5, 20)), float(rng.choice([1.0, 0.5, 0.3])))
         sw = pc.get_switched_peak_array_indices(x)
         ncyc = col0(im.calc_n_cyc_array_w_power_law(x, aref, b, cut_off=cut), n)
         amp = col0(im.calc_cyc_amp_array_w_power_law(x, namp, b), n)
